@@ -215,72 +215,9 @@ def run(ctx):
     ctx.coverage["counts"] = {"corpus": ncorp, "history_cases": n_hist, "scripted_property_cases": n_sprop, "real_finder_cases": n_real, "max_atoms": max_atoms}
     ctx.coverage["timing_s"] = {"impl": round(t_impl, 1), "coq": round(t_coq, 1)}
 
-    # ---- history stream: one SBC instance reused across structures (same atoms with another periodicity first)
+    # ---- history stream: one SBC instance reused across structures (same atoms with another periodicity / other radii first)
     from props import sbc_gen as _G
-    n_reuse = 40 if quick else 240
-    rcases = []
-
-    def radii_choice(rng, n, numbers):
-        from ase.data import covalent_radii
-        k = rng.random()
-        if k < 0.3:
-            return "covalent"
-        if k < 0.5:
-            return "vdw"
-        if k < 0.6:
-            return "vdw_covalent"
-        f = rng.choice([0.6, 0.8, 1.3, 1.6, 1.9])
-        return {"array": [round(float(covalent_radii[z]) * f, 4) for z in numbers]}
-
-    def crystallite_with_satellites(rng):
-        """finite fcc/sc/bcc block in a large box plus 1-3 atoms on lattice sites 1-2 shells outside: bonded to the
-        block under large radii, not under small ones (cleaning and connectivity depend on the radii of the call)"""
-        from ase.build import bulk
-        from ase.data import covalent_radii
-        import numpy as _np
-        sym, lat = rng.choice([("Cu", "fcc"), ("Al", "fcc"), ("Fe", "bcc"), ("Ni", "fcc"), ("W", "bcc")])
-        a = {"Cu": 3.6, "Al": 4.05, "Fe": 2.87, "Ni": 3.52, "W": 3.16}[sym]
-        blk = bulk(sym, lat, a=a, cubic=True) * (rng.choice([2, 3]), rng.choice([2, 3]), rng.choice([2, 3]))
-        pos = blk.get_positions().tolist()
-        num = blk.get_atomic_numbers().tolist()
-        P = _np.array(pos)
-        corner = P[int(_np.argmax(P @ _np.array([rng.choice([-1, 1]), rng.choice([-1, 1]), rng.choice([-1, 1])])))]
-        for _ in range(rng.randint(1, 3)):
-            v = _np.array([rng.choice([-1, 0, 1, 1]), rng.choice([-1, 0, 1, 1]), rng.choice([0, 0.5, 1])]) * a
-            q = corner + _np.sign(corner - P.mean(axis=0) + 1e-9) * _np.abs(v)
-            if _np.min(_np.linalg.norm(P - q, axis=1)) > 0.9 * a / 2 ** 0.5:
-                pos.append([float(x) for x in q])
-                num.append(num[0])
-        P = _np.array(pos)
-        P = P - P.min(axis=0) + 8.0
-        L = P.max(axis=0) + 8.0
-        pbc = rng.choice([[False, False, False], [True, True, True], [True, True, False]])
-        return {"numbers": [int(z) for z in num], "positions": [[round(float(x), 6) for x in r] for r in P],
-                "cell": [[float(L[0]), 0, 0], [0, float(L[1]), 0], [0, 0, float(L[2])]], "pbc": pbc}, {"kind": "crystallite+satellites", "n": len(num)}
-
-    for k in range(n_reuse):
-        if k % 2 == 0:
-            st, meta = crystallite_with_satellites(ctx.rng)
-        else:
-            st, meta = _G.gen_structure(ctx.rng, 60 if quick else 120, kinds=["defective", "crystal", "two", "molecules"])
-        if not any(st["pbc"]):
-            alt = [True, True, True]
-        else:
-            alt = [not b for b in st["pbc"]] if not all(st["pbc"]) else [False, False, False]
-        nums = st["numbers"]
-        kw = {"bond_threshold": ctx.rng.choice([0.5, 0.65, 0.9]), "seed": 7, "radii": radii_choice(ctx.rng, len(nums), nums)}
-        prior = []
-        for _ in range(ctx.rng.randint(0, 2)):
-            pk = {"bond_threshold": ctx.rng.choice([0.5, 0.65, 0.9]), "seed": 7, "radii": radii_choice(ctx.rng, len(nums), nums)}
-            if not isinstance(pk["radii"], str) or pk["radii"] != "covalent":
-                pk["overlap_threshold"] = -3.0
-            prior.append(pk)
-        if not isinstance(kw["radii"], str) or kw["radii"] != "covalent":
-            kw["overlap_threshold"] = -3.0
-        rcases.append({"id": k, "structure": st, "alt_pbc": alt, "kwargs": kw, "prior": prior, "meta": meta})
-    chunks = [rcases[i::8] for i in range(8)]
-    routs = C.impl_run_parallel("sbc_reuse_impl", [{"cases": ch} for ch in chunks if ch], jobs=8)
-    rrows = [r for o in routs for r in o["rows"]]
+    rcases, rrows = _G.reuse_stream(ctx.rng, quick)
     reuse_bad = [r for r in rrows if r.get("dim_mismatch") or r.get("prior_dim_mismatch") or r.get("same_as_fresh") is False]
     ctx.add_cases(len(rrows), sum(1 for r in rrows if "error" not in r))
     ctx.coverage["sbc_instance_reuse"] = {"sequences": len(rrows), "errors": sum(1 for r in rrows if "error" in r), "failures": reuse_bad[:5]}
